@@ -114,6 +114,57 @@ def _is_local(key):
     return i > 0 and key[:i].isdigit()
 
 
+_OWN_NAMES = {}
+
+
+def own_names(func):
+    """Names that are local to ``func`` by Python's scoping rules (parameters and every name bound in its body,
+    nested scopes excluded, minus names declared nonlocal / global)."""
+    got = _OWN_NAMES.get(id(func))
+    if got is not None:
+        return got[1]
+    a = func.args
+    names = {p.arg for p in a.posonlyargs + a.args + a.kwonlyargs}
+    if a.vararg:
+        names.add(a.vararg.arg)
+    if a.kwarg:
+        names.add(a.kwarg.arg)
+    outer = set()
+    if not isinstance(func, ast.Lambda):
+        stack = list(func.body)
+        while stack:
+            n = stack.pop()
+            if isinstance(n, FUNC_TYPES + (ast.ClassDef,)):
+                names.add(n.name)
+                continue
+            if isinstance(n, ast.Lambda):
+                continue
+            if isinstance(n, ast.Name) and isinstance(n.ctx, (ast.Store, ast.Del)):
+                names.add(n.id)
+            elif isinstance(n, (ast.Import, ast.ImportFrom)):
+                names.update((al.asname or al.name).split(".")[0] for al in n.names)
+            elif isinstance(n, ast.ExceptHandler) and n.name:
+                names.add(n.name)
+            elif isinstance(n, (ast.Nonlocal, ast.Global)):
+                outer.update(n.names)
+            stack.extend(ast.iter_child_nodes(n))
+    names -= outer
+    _OWN_NAMES[id(func)] = (func, frozenset(names))
+    return _OWN_NAMES[id(func)][1]
+
+
+def lexical_parent(func):
+    """The function (or lambda) whose body defines ``func``, or None for methods / module-level functions."""
+    n = getattr(func, "_parent", None)
+    while n is not None:
+        if isinstance(n, FUNC_TYPES + (ast.Lambda,)):
+            return n
+        if isinstance(n, ast.ClassDef):
+            return None
+        n = getattr(n, "_parent", None)
+    return None
+
+
 class Frame:
     def __init__(self, func, depth, receiver=None, name=None, is_method=True):
         self.func = func
@@ -123,10 +174,34 @@ class Frame:
         self.name = name or getattr(func, "name", "<lambda>")
         self.selfname = None
         self.caller = None
+        self.enclosing = ()   # frames of the lexically enclosing functions that are still executing, innermost first
         if is_method and isinstance(func, FUNC_TYPES) and func.args.args and receiver is not None:
             self.selfname = func.args.args[0].arg
 
+    def bind_enclosing(self, caller):
+        """Find the live frames of the lexically enclosing functions (closures) in the caller chain."""
+        chain = []
+        want = lexical_parent(self.func) if isinstance(self.func, FUNC_TYPES + (ast.Lambda,)) else None
+        c = caller
+        while want is not None and c is not None:
+            if c.func is want:
+                chain.append(c)
+                want = lexical_parent(want)
+            c = c.caller
+        self.enclosing = tuple(chain)
+        if self.selfname is None and isinstance(self.func, FUNC_TYPES + (ast.Lambda,)):
+            own = own_names(self.func)
+            for e in chain:
+                if e.selfname is not None and e.selfname not in own:
+                    self.selfname = e.selfname
+                    break
+                own = own | own_names(e.func)
+
     def local(self, name):
+        if self.enclosing and isinstance(self.func, FUNC_TYPES + (ast.Lambda,)) and name not in own_names(self.func):
+            for e in self.enclosing:
+                if name in own_names(e.func):
+                    return e.prefix + name   # a free variable: the enclosing function's local
         return self.prefix + name
 
 
@@ -411,6 +486,18 @@ class Interp:
         if not getattr(self.domain, "track_lists", False):
             return None
         f = call.func
+        if isinstance(f, ast.Attribute) and f.attr == "pop" and len(call.args) <= 1 and not call.keywords:
+            # x.pop() / x.pop(0) on an exact list
+            key = self._key_of(f.value, fr)
+            cur = st.get(key, None) if key is not None else None
+            if not (isinstance(cur, tuple) and cur[:1] == ("tuple",)):
+                return None
+            first = bool(call.args) and isinstance(call.args[0], ast.Constant) and call.args[0].value == 0
+            if call.args and not first and not (isinstance(call.args[0], ast.Constant) and call.args[0].value == -1):
+                return None
+            if len(cur) == 1:
+                return [exc(("exc", "IndexError"), st)]
+            return [val(cur[1] if first else cur[-1], st.set(key, ("tuple",) + (cur[2:] if first else cur[1:-1])))]
         if not (isinstance(f, ast.Attribute) and f.attr in ("append", "extend") and len(call.args) == 1 and not call.keywords):
             return None
         key = self._key_of(f.value, fr)   # a local, or an attribute of self kept in the state
@@ -443,7 +530,7 @@ class Interp:
         if not (isinstance(call.func, ast.Name) and call.func.id in ("tuple", "list", "any", "all", "len") and len(call.args) == 1 and not call.keywords):
             return None
         arg = call.args[0]
-        if not isinstance(arg, (ast.Name, ast.ListComp, ast.GeneratorExp, ast.Tuple, ast.List, ast.Call)):
+        if not isinstance(arg, (ast.Name, ast.Attribute, ast.ListComp, ast.GeneratorExp, ast.Tuple, ast.List, ast.Call)):
             return None
         rs = self._forced(self.eval(arg, st, fr), fr)
         if any(r.kind == "val" and self._exact_elements(r.value) is None for r in rs):
@@ -856,6 +943,13 @@ class Interp:
                     out.append(("raise", r.value, r.state))
                     continue
                 s2 = r.state
+                if r.value in (NONE, TRUE, FALSE) and any(isinstance(t, (ast.Tuple, ast.List)) for t in s.targets):
+                    out.append(("raise", ("exc", "TypeError"), s2))   # cannot unpack None / a bool
+                    continue
+                if isinstance(r.value, tuple) and r.value[:1] == ("tuple",) and any(
+                        isinstance(t, (ast.Tuple, ast.List)) and not any(isinstance(x, ast.Starred) for x in t.elts) and len(t.elts) != len(r.value) - 1 for t in s.targets):
+                    out.append(("raise", ("exc", "ValueError"), s2))   # wrong number of values to unpack
+                    continue
                 for t in s.targets:
                     s2 = self.assign(t, r.value, s2, fr)
                 out.append(("next", None, s2))
@@ -1225,6 +1319,8 @@ class Interp:
                                 for rr in hr:
                                     if rr.kind == "exc":
                                         out.append(("raise", rr.value, rr.state))
+                                    elif item.optional_vars is not None and getattr(d, "enter_returns_self", False):
+                                        nxt.append(self.assign(item.optional_vars, rr.value, rr.state, fr))   # `as x`: what __enter__ returned
                                     else:
                                         nxt.append(rr.state)
                                 continue
@@ -1256,11 +1352,14 @@ class Interp:
         fr = Frame(func, depth, receiver if receiver is not None else (caller.receiver if caller else None), name,
                    is_method=is_method and getattr(func, "_class", None) is not None)
         fr.caller = caller
-        # The callee sees only the global part of the state (event monitors, self.*);
-        # the callers' frame locals pass through unchanged.  Summaries keyed by
+        fr.bind_enclosing(caller)
+        # The callee sees only the global part of the state (event monitors, self.*) and, for a nested
+        # function, the locals of its lexically enclosing frames (which it may also rebind or mutate);
+        # the other callers' frame locals pass through unchanged.  Summaries keyed by
         # (function, globals, arguments) close recursion.
-        caller_locals = frozenset((k, v) for k, v in st.items if _is_local(k))
-        entry = State(frozenset((k, v) for k, v in st.items if not _is_local(k)), st.log)
+        shared = tuple(e.prefix for e in fr.enclosing)
+        caller_locals = frozenset((k, v) for k, v in st.items if _is_local(k) and not (shared and k.startswith(shared)))
+        entry = State(frozenset((k, v) for k, v in st.items if not _is_local(k) or (shared and k.startswith(shared))), st.log)
         key = (id(func), entry, tuple(sorted((k, repr(v)) for k, v in argvals.items())))
         if key in self.in_progress:
             return [Result(r.kind, r.value, State(r.state.items | caller_locals, r.state.log)) for r in self.summaries.get(key, [])]
@@ -1359,6 +1458,12 @@ class Interp:
                         if isinstance(s_, FUNC_TYPES) and s_.name == func.id and s_ is not fr.func:
                             return s_, (fr.receiver if not isinstance(n, ast.Module) else None), False
                 n = getattr(n, "_parent", None)
+            # imported from another module of the repository
+            mod = getattr(fr.func, "_module", None)
+            if classes is not None and mod is not None and hasattr(classes, "lookup_function"):
+                f = classes.lookup_function(mod, func.id)
+                if f is not None and f is not fr.func:
+                    return f, None, False
         return None
 
     def call_function(self, f, call, st, fr, receiver=None, bind_self=True):
